@@ -36,6 +36,7 @@ Definition gconst (x : string) : option Z :=
   else if String.eqb x "ScoreCloseToMate" then Some ScoreCloseToMate
   else if String.eqb x "killerMovesMaxPly" then Some killerMovesMaxPly
   else if String.eqb x "DrawScore" then Some DrawScore
+  else if String.eqb x "lastValidSquare" then Some lastValidSquare
   else None.
 Definition b2z (b : bool) : Z := if b then 1 else 0.
 
@@ -57,6 +58,7 @@ Definition call (f : string) (args : list Z) : result Z :=
       if String.eqb f "abs" then Ok (if a <? 0 then int64 (- a) else a)       (* the engine's own abs(int) int *)
       else if String.eqb f "int" then Ok a
       else if String.eqb f "uint16" then Ok (a mod 65536)
+      else if String.eqb f "int16" then Ok ((a + 32768) mod 65536 - 32768)
       else Panic P_GO_UNSUPPORTED
   | _ => Panic P_GO_UNSUPPORTED
   end.
